@@ -140,6 +140,13 @@ Theorem C10_content_cancel_drains : forall target self tbl cans U s,
 Proof. intros target self tbl cans U s H1 H2. exact (content_cancel_drains (xkey target) (xkey_inj target) self tbl cans U H1 H2 s). Qed.
 Print Assumptions C10_content_cancel_drains.
 
+(* the success flag lookup.query hands to the table: a query counts as successful iff its reply contained at least one
+   entry; an empty (fruitless) reply is reported as a failure whether or not the query function returned an error *)
+Theorem C10_query_success_flag : forall r : list (option N),
+  (track_success r = true <-> r <> []) /\ track_success [] = false.
+Proof. intros r. split; [exact (track_success_iff r) | reflexivity]. Qed.
+Print Assumptions C10_query_success_flag.
+
 (* premises are satisfiable by a non-trivial run: target 0, local node 100, table [5;9], peer 5 answers with a duplicate,
    the asker and a cycle back to 9, peer 9 points to 5 and to 2; replies taken in the order 9, 5, 2 *)
 Example C10_nonvacuous :
